@@ -17,8 +17,7 @@ RULE = ("cases = generated 3D plotfiles (any layout, 1-3 levels) x field x dtype
         "and >=2 files on some level under a non-identity completion order")
 ASSUMPTIONS = ["tasks atomic per binary file; the parent applies results in delivery order",
                "generator trusted"]
-REQUIRED_OBS = {"runs": 50, "schedules_nonidentity": 10, "limited": 10, "float32": 20,
-                "calls:expand_array3d": 100}
+REQUIRED_OBS = {"runs": 50, "schedules_nonidentity": 10, "limited": 10, "float32": 20}
 TIMEOUT = {"quick": 600, "thorough": 3000}
 
 
